@@ -37,6 +37,12 @@ def check(ctx):
     # memoised answers on the decode path: the key covers every parameter the stored answer depends on
     from ..rules import persist as _ps
     _ps.check_decode_memos(ctx)
+    # the corrected value of a design-variable node lies inside its declared domain (region analysis of C16)
+    from .c16 import clamp_regions as _cr
+    _cr(ctx)
+    # an encoder loaded from the on-disk cache decodes the connection variables: it is only re-used for the same settings
+    from .c12 import cache_keys as _ck
+    _ck(ctx)
 
 
 from ..selftest import V  # noqa: E402
